@@ -60,6 +60,12 @@ def main() -> int:
         for f in os.listdir(src):
             if os.path.isfile(os.path.join(src, f)) and not f.endswith(".log"):
                 shutil.copy(os.path.join(src, f), f"{wt}/SEEDED/{sub}/{f}")
+        # helper files shared by both demos of one agent live next to the A/ B/ directories (or, once stored, in _shared/)
+        for shared in (os.path.dirname(os.path.abspath(src)), os.path.join(src, "_shared")):
+            if os.path.isdir(shared) and os.path.basename(shared) in ("SEEDED", "_shared"):
+                for f in os.listdir(shared):
+                    if os.path.isfile(os.path.join(shared, f)) and f.endswith((".py", ".fan", ".txt", ".json")):
+                        shutil.copy(os.path.join(shared, f), f"{wt}/SEEDED/{f}")
         demo_rel = f"SEEDED/{sub}/{demo}"
         rc0, out0 = run_demo(wt, demo_rel)
         conf["demo_clean_exit"] = rc0
@@ -115,8 +121,16 @@ def main() -> int:
     if ok or "--keep" in sys.argv:
         dst = os.path.join(VERIF, "seeded", sid)
         os.makedirs(dst, exist_ok=True)
-        shutil.copy(os.path.join(src, "patch.diff"), dst)
-        shutil.copy(os.path.join(src, demo), dst)
+        for f in os.listdir(src):
+            if os.path.isfile(os.path.join(src, f)) and not f.endswith(".log") and f != "meta.json" and os.path.abspath(src) != os.path.abspath(dst):
+                shutil.copy(os.path.join(src, f), dst)
+        parent = os.path.dirname(os.path.abspath(src))
+        if os.path.basename(parent) == "SEEDED":
+            extra = [f for f in os.listdir(parent) if os.path.isfile(os.path.join(parent, f)) and f.endswith((".py", ".fan", ".txt"))]
+            if extra:
+                os.makedirs(os.path.join(dst, "_shared"), exist_ok=True)
+                for f in extra:
+                    shutil.copy(os.path.join(parent, f), os.path.join(dst, "_shared"))
         old = {}
         if os.path.exists(os.path.join(dst, "meta.json")):
             old = json.load(open(os.path.join(dst, "meta.json"))).get("confirmation", {})
